@@ -272,6 +272,17 @@ def run(R):
         if not ok:
             R.viol("C18.flush", "sync-before-write", "sync_and_flush_to_disk must merge the on-disk cache (when it loads) before write, and overwrite when it does not load", sf, sf.lines[0])
         R.inst("C18.flush", "K5 must-follow", "flush: load → (Ok ⇒ sync with it) → write; load Err ⇒ overwrite", 3, ok)
+        # with_cleanup: the bounds are (re-)established on the *merged* data — between the sync and the write
+        tr = Tracker(sf)
+        for l in Taint(sf).closure(PL(sf, 1)):  # (self, with_cleanup)
+            tr.seed_bool(l, True)
+        tr.run()
+        cl = set(CallSink(CD + "::perform_cleanup").blocks(sf))
+        okc = bool(tr.accept) and bool(tr.reject) and bool(cl) and bool(sy) and not (set(wr_) & g.reach(tuple(sy), avoid=cl, cut=tr.reject))
+        if not okc:
+            R.viol("C18.flush.bounds", "merge-after-cleanup", "sync_and_flush_to_disk(with_cleanup = true) can write the merged cache without a clean-up *after* the merge: "
+                   "the persisted file can exceed max_peers / max_addrs_per_peer", sf, sf.lines[0])
+        R.inst("C18.flush.bounds", "K5 must-follow", "with_cleanup: perform_cleanup runs between the merge with the file and the write", len(cl), okc)
     # (5) corrupt file
     lc = R.body("C18.load", BCS + "::load_cache_data")
     if lc is not None:
